@@ -69,7 +69,8 @@ def build(ck):
     ua = ck.cc(os.path.join(ck.bdir, "spooky_ua.o"), ["repo:usual/hashing/spooky.c"],
                flags=["-c", "-fno-sanitize=alignment"])
     h = ck.cc(os.path.join(ck.bdir, "h"),
-              [os.path.join(hdir, "h.c"), os.path.join(hdir, "spooky_noua.c"), ua] +
+              [os.path.join(hdir, "h.c"), os.path.join(hdir, "spooky_noua.c"),
+               os.path.join(hdir, "memhash_narrow.c"), ua] +
               ["repo:usual/hashing/%s.c" % s for s in HASH_SRCS])
     return [h], [ck.driver_path("drv_c16")]
 
@@ -126,6 +127,7 @@ def gen_case(rng, n, kind, nkeys):
         ops.append("spooky %x %x" % (key64(rng), key64(rng)))
         ops.append("xxh %x" % key32(rng))
         ops.append("mem %x" % key32(rng))
+        ops.append("mem32 %x" % key32(rng))
     return ops
 
 
@@ -247,7 +249,7 @@ def run(ck):
         "for every length in the tier's set (quick: 0..300 + 383..385,1023,1024,4095,4096,65537; thorough: "
         "0..1100 + 2047..2049,4095..4097,8191..8193,65535..65537) several buffers (random + rotating structured kinds: zero, ff, incr, "
         "incr128, onebit, alt55aa, lowentropy); per buffer one l3 op and, per key set, one crc/crcinc/sip/"
-        "spooky/xxh/mem op with random or boundary keys (quick 3 buffers x 4 key sets, thorough 8 buffers x 16 key sets per length; 2 x 2 above 4096 bytes). "
+        "spooky/xxh/mem/mem32 op with random or boundary keys (quick 3 buffers x 4 key sets, thorough 8 buffers x 16 key sets per length; 2 x 2 above 4096 bytes). "
         "evaluations = hash op lines compared (model vs implementation); each is executed by the harness at "
         "32 placements (start offsets 0..15 from a left PROT_NONE page, end offsets 0..15 from a right one, "
         "slack poisoned + refilled with garbage) and compared with an independent reference. "
@@ -255,8 +257,8 @@ def run(ck):
         "evaluation; bad-op lines are not generated); length 0 is kept as a boundary class")
     ck.assumptions += [
         "little-endian 64-bit host: the byte order clauses (lookup3/xxhash/spooky read host-endian words) and "
-        "the 32-bit branch of memhash_seed (xxhash) cannot be exercised here; the model's memhashSeed false "
-        "branch is defined but only its true branch is compared",
+        "a genuine 32-bit build cannot be made here; the XXH32 branch of memhash_seed is exercised by compiling "
+        "memhash.c a second time with sizeof forced to 4 (harness/C16/memhash_narrow.c, op mem32)",
         "spooky.c is compiled as /repo configures it (direct unaligned uint64_t reads, UBSan alignment check "
         "off for that object only) and a second time as a strict-alignment host would (memcpy variant)",
         "'equals the published algorithm' for lookup3/siphash/xxh32 is proved against Lean transcriptions of "
